@@ -15,7 +15,7 @@ def parseLabels (s : String) : Labels :=
     | _ => none)
 
 def parseCidrs (s : String) : Option (List Cidr) :=
-  if s == "-" then some [] else (s.splitOn ",").mapM parseCidr
+  if s == "-" then some [] else (s.splitOn ",").mapM (fun t => parseCidr ((t.splitOn "~").headD t))
 
 def parseWOut (s : String) : Option WOut :=
   if s == "ok" then some .ok else if s == "fail" then some .fail else if s == "lost" then some .lost else none
@@ -26,7 +26,7 @@ def parseWs (s : String) : Option (List WOut) :=
 def parseField (s : String) : Option RangeField :=
   if s == "_" then some .empty
   else if s == "M" || s.startsWith "M@" then some .malformed
-  else match s.splitOn "@" with
+  else match ((s.splitOn "~").headD s).splitOn "@" with   -- "tok@label~spelling": the spelling is the API object's business
     | [t, l] => (parseCidr t).map (fun c => .ok c l)
     | _ => none
 
